@@ -77,6 +77,10 @@ SPECIAL = [
     "CC(=O)O>>CC(=O)[O-]", "[Mg+2].[Cl-].[Cl-]>>[Mg+2]", "[Li]CCCC.O>>CCCC",
     "C[Mg]Br.CC=O>>CC(C)O", "[K+].[I-].CCCl>>CCI", "CC[Th]>>CC", "CC.[U]>>CC",
     "[NH3+]CC(=O)[O-]>>NCC(=O)O", "[13C]>>[12C]" ,
+    # charge-only imbalances (redox half reactions): elements balanced, net charge not
+    "ClCl>>[Cl-].[Cl-]", "OO>>[OH-].[OH-]", "O=[Mn](=O)(=O)[O-]>>O=[Mn](=O)([O-])[O-]", "[Fe+2]>>[Fe+3]",
+    "[Fe+3]>>[Fe+2]", "[Cu+2].[I-].[I-]>>[Cu+].[I-].[I-]", "CC(=O)[O-].BrBr>>CC(=O)[O-].[Br-].[Br-]",
+    "[O-][O-]>>[OH-].[OH-]", "[Cl-]>>[Cl-].[Cl-]",
 ]
 
 
